@@ -164,11 +164,9 @@ def expectedDecoded (e : Expect) (f : Facts) (body : Bytes) : Option (Option Byt
   match e with
   | .bytes => some (some body)
   | .string =>
-    if f.enc == .unknown then some none                            -- unsupported charset label
-    else if bom8 body then utf8                                    -- a byte order mark overrides the label
-    else if bom16 body then dec f.sd                               --   (WHATWG "decode"); UTF-16 is opaque here
-    else if f.enc == .utf8 then utf8
-    else dec f.sd
+    if f.enc == .unknown then some none                            -- unsupported charset label: an error value
+    else if f.enc == .utf8 && !bom16 body then utf8                -- UTF-8 (label or default): `String::from_utf8`
+    else dec f.sd                                                  -- any other decoder: what encoding_rs' `decode` yields
   | .json => dec f.jd
 where
   /-- UTF-8 as `String::from_utf8`: the same bytes (a UTF-8 byte order mark is kept) or an error -/
@@ -217,9 +215,10 @@ def rejectKeyResp (res : HttpResult) (e : Expect) (f : Facts) (o : Outcome) : St
     if okRespModInjection res e f o then "content-type-injected"
     else if 400 ≤ r.status && r.status < 600 then "error-response-altered"
     else match o with
-      | .success s hs _ =>
+      | .success s hs b =>
         if s != r.status then "status-altered"
         else if !(sameHeaders r.headers hs || sameHeadersModInjection r.headers hs) then "headers-altered"
+        else if e == .string && f.enc == .other && bom8 r.body && b == r.body then "utf8-bom-kept-under-other-label"
         else "body-altered"
       | _ => "success-response-misclassified"
 
